@@ -1,8 +1,8 @@
 CONSTANTS
-  Nodes <- Nodes4
+  Nodes <- Nodes3
   MaxKids = 3
-  Alias = FALSE
-  Options <- Opts
+  Alias = TRUE
+  Options <- AOpts
 SPECIFICATION Spec
 CHECK_DEADLOCK FALSE
 INVARIANT Emit
